@@ -72,12 +72,14 @@ def run(ctx):
     if r.violation != "OneInstance":
         raise ToolError("sensitivity: the re-instantiating model was not rejected")
     ctx.stage("model-sensitivity", variant="Reinstantiate (every import evaluates the library again, as the implementation was found)", tlc_verdict="OneInstance violated (as required)")
-    cfg = "MCLibs_quick.cfg" if tier == "quick" else "MCLibs_thorough.cfg"
+    # (histories of 4 operations over the present world - 26 operations, 8 import declarations - are 3.6 million: the thorough
+    # tier keeps the exhaustive length 3, replays every history in both library modes and adds many more random walks)
+    cfg = "MCLibs_quick.cfg"
     r = run_tlc("MCLibs.tla", cfg, ctx.dir, workers=12, timeout=3000, xmx="12g")
     require_clean(r, cfg)
     ctx.add_tlc(r, cfg + " (OneInstance, ExportedOnly, LibraryFramesAreRoots, SharedState)")
     vecs = r.vecs
-    nsim = 12 if tier == "quick" else 200
+    nsim = 12 if tier == "quick" else 400
 
     def sim(seed):
         return run_tlc("MCLibs.tla", "MCLibs_sim.cfg", ctx.dir, tag="sim%d" % seed, workers=1, timeout=3000,
@@ -121,8 +123,8 @@ def run(ctx):
     ctx.sample({"program": describe(vecs[len(vecs) // 2]), "libraries": [lib_source(l) for l in world_libs(vecs[0])]})
     ctx.assumptions += ["imports precede every other form of the program (Ruschm rejects a later import; the properties are silent)",
                         "the library declarations are written in three orders (export before, after and between two halves of the body)"]
-    return ctx.finish(rule="every program of one import declaration (5 variants incl. the same library twice under a prefix and a library that itself imports the stateful one) followed by up to 3 (4 thorough) operations out of 13 "
-                           "(calls of exports, redefinition of an imported name, colliding helper, unexported and internal names, a free name of a library procedure), plus TLC -simulate walks of 12 operations; "
+    return ctx.finish(rule="every program of one import declaration (8 variants incl. the same library twice under a prefix, libraries that import the stateful one directly and through another library, a library without imports) followed by 3 operations out of 26 "
+                           "(calls of exports incl. renamed, swapped and re-exported ones, redefinition of an imported name, colliding helper, unexported and internal names, free names of library procedures, a variable assigned at the end of the body), plus TLC -simulate walks of 12 operations; library declarations written in three orders; "
                            "libraries as registered sources and as .sld files; non-trivial = distinct program")
 
 
